@@ -104,9 +104,12 @@ static void spec_automorphism(int64_t p, const int64_t* in, int64_t* out) {
   }
 }
 
+int vf_marker; /* assigned once the module exists: the C12 write-set analysis (vf.alg.uf) looks at what the call assigns afterwards */
+
 void h_vecop(void) {
   MODULE mod;
   vf_module_init_notables(&mod, NN, FFT64, AVX);
+  vf_marker = 1;
 
   int64_t p = P;
 #if PMODE == 1
